@@ -159,3 +159,26 @@ def run(ctx):
     ok = bool(pushes) and all(f.in_loop(b) for b in pushes)
     ctx.ob("C13.3", "%s|every-byte-kept" % f.id, "every byte read is appended to the line buffer until the terminator", ok, "%s:%d" % (f.file, f.line))
     return {}
+
+
+def run_thorough(ctx):
+    """the same short-read classification inside chunked_transfer::Decoder (generic MIR of the dependency)"""
+    facts = ctx.facts
+    n = 0
+    for k, g in sorted(facts.fns.items()):
+        if g.rec.get("local") or not re.search(r"chunked_transfer::(decoder::)?Decoder", k):
+            continue
+        sites = [(bb, t) for bb, t in g.calls() if t.get("callee") in ("std::io::Read::read", "std::io::Read::read_vectored")]
+        for i, (bb, t) in enumerate(sites):
+            n += 1
+            ctx.touch(g, calls=1)
+            # generic extern bodies carry no impl metadata: recognise `<.. as Read>::read` by name
+            rec = dict(g.rec)
+            if re.search(r" as std::io::Read>::read$", k):
+                g.rec["impl_trait"] = T_READ
+                g.rec["name"] = "read"
+            c, why = classify(facts, g, bb, t)
+            g.rec.clear(); g.rec.update(rec)
+            ctx.ob("C13.1", "[dep]%s|read|%d" % (k, i), "every short read inside the chunk decoder is handled (count passed through)", c is not None, g.loc(bb), "%s: %s" % (c, why) if c else why)
+    ctx.floor("C13.1(thorough) reads inside the chunk decoder", n, 2)
+    return {"decoder_reads_classified": n}
